@@ -142,6 +142,31 @@ def havoc_object_fields(eng, st, ident, stmt, ls):
     for node in ast.walk(stmt):
         if isinstance(node, ast.Attribute) and isinstance(node.ctx, ast.Store):
             assigned.add(node.attr)
+    # fields modified through methods under contract called in the loop body: obj.m(...), next(obj)
+    names = {n for n, v in st.env.items() if isinstance(v, VRef) and v.ident == ident}
+    cls, mod = cell.get("__class__"), cell.get("__module__")
+    for node in ast.walk(stmt):
+        meth = None
+        if isinstance(node, ast.Call) and isinstance(node.func, ast.Attribute) and isinstance(node.func.value, ast.Name) \
+                and node.func.value.id in names:
+            meth = node.func.attr
+        elif isinstance(node, ast.Call) and isinstance(node.func, ast.Name) and node.func.id == "next" and node.args \
+                and isinstance(node.args[0], ast.Name) and node.args[0].id in names:
+            meth = "__next__"
+        elif isinstance(node, ast.For) and isinstance(node.iter, ast.Name) and node.iter.id in names:
+            for mname in ("__iter__", "__next__"):
+                c = eng.cdb.get(f"{mod}:{cls}.{mname}")
+                if c is not None:
+                    for m in c.modifies:
+                        if isinstance(m, ast.Attribute):
+                            assigned.add(m.attr)
+        if meth is not None:
+            c = eng.cdb.get(f"{mod}:{cls}.{meth}")
+            if c is None:
+                continue
+            for m in c.modifies:
+                if isinstance(m, ast.Attribute) and isinstance(m.value, ast.Name) and c.params and m.value.id == c.params[0][0]:
+                    assigned.add(m.attr)
     nc = dict(cell)
     for f in assigned:
         if f in nc and not f.startswith("__"):
@@ -320,8 +345,11 @@ def construct(eng, st, target, args, kwargs, node):
                 cs.env = dict(bound)
                 cs.heap = s.heap
                 cell = dict(s.heap[ident])
+                n0 = len(cs.pc)
                 for fld, expr in c.initializes.items():
                     cell[fld] = eng.named(s, eng.ev1(expr, cs), fld)
+                for fact in cs.pc[n0:]:
+                    s.assume(fact)          # facts that define the initial field values (e.g. a comprehension's elements)
                 cell.pop("__fresh__", None)
                 s.heap[ident] = cell
             outs.append((s, ref))
